@@ -234,8 +234,6 @@ Proof.
   - apply (chk_disjoint_sound env Henv). assumption.
   - unfold box_pots.
     pose proof (chk_kinds_sound env dx dy dz mh) as K. unfold pot_ok in K. rewrite E1, E2, E3, E4, E5, E6 in K.
-    apply K; try assumption.
-    + destruct Cx as [(-> & _)|(? & _)], Cy as [(-> & _)|(? & _)], Cz as [(-> & _)|(? & _)]; lra.
-    + fold ex ey ez. exact Hemin.
-    + lra.
+    apply K; [ | exact Hemin | repeat split; lra | exact H ].
+    destruct Cx as [(-> & _)|(? & _)], Cy as [(-> & _)|(? & _)], Cz as [(-> & _)|(? & _)]; lra.
 Qed.
